@@ -47,8 +47,8 @@ def run_e2e(args):
             for iface in I.IFACES:
                 if not I.supports(iface, a["fmt"], a["comp"]):
                     continue
-                for shuffle, T in a["configs"]:
-                    T = max(1, T if T > 0 else nsh + (-T))
+                for shuffle, T in a["configs"] + ([(0, None)] if iface == "tf" else []):       # as_tfdataset documents file_parallelism=None
+                    T = None if T is None else max(1, T if T > 0 else nsh + (-T))
                     try:
                         got, calls = I.run_iface(ds, iface, split, shuffle=shuffle, T=T, process=True)
                         rec["runs"].append({"iface": iface, "split": split, "shuffle": shuffle, "T": T, "got": got, "calls": calls})
@@ -158,7 +158,7 @@ def run(ctx):
             if run_["calls"] is not None and run_["calls"] != len(run_["got"]):
                 ctx.report(dict(sig, kind="process-count"), f"{run_['iface']}: process_record applied {run_['calls']} times for {len(run_['got'])} yielded examples",
                            {"case": r["case"], "run": run_})
-            distinct.add((r["case"]["fmt"], run_["iface"], run_["shuffle"] > 0, min(run_["T"], 3), len(exp) > r["case"]["eps"]))
+            distinct.add((r["case"]["fmt"], run_["iface"], run_["shuffle"] > 0, min(run_["T"] or 0, 3), len(exp) > r["case"]["eps"]))
     if corr_bad and not ctx.violations and not ctx.known_hits:
         ctx.report({"kind": "correspondence"}, f"monitor of {corr_bad[0]['stage']} no longer accepts the real generator's trace",
                    {"correspondence": "M-ITER monitors vs shuffle_buffer/round_robin", "theorem": "Sedpack.Pipe.C02_shuffle_buffer_perm / C02_round_robin_perm",
